@@ -72,3 +72,15 @@ register('C20', 'other',
          "Fortran cells end at the missing f2py/meson tool chain (the guard itself is decided by CrossHair); cells that "
          "return are not re-validated numerically here (see C02/C09/C10)",
          "CrossHair on guard functions (symbolic strings) + exhaustive configuration/malformed-variant enumeration", "7/C20")
+register('C08', 'translation_validation',
+         "The input array is an argument of the emitted function, so its samples are symbols. Fixed step: for every step "
+         "k < N z3 proves that the derivative of every state variable equals the reference in which exactly the addressed "
+         "variable(s) receive U[k] (column i for addressed node i, broadcast for 1-D, (N,1) as (N,)) on top of their other "
+         "connections. Adaptive: t is a symbolic real in [0,T] and the reference value is the linear interpolation of the "
+         "symbolic samples on the uniform grid j*T/(N-1) stated by the property (np.interp modelled as nested If and "
+         "validated against NumPy on each run). Targets: single node, wildcards, one hierarchy level, several converging "
+         "edges, vectorize on/off.",
+         "reals for floats; N <= 5 (quick) / 9 (thorough); default backend (the torch/jax/Fortran interp helpers belong to "
+         "C02); input defaults are 0 in this family; t outside [0,T] not claimed; the Euler integral of x'=u follows from "
+         "this per-step result together with C03's kernel result",
+         "SMT translation validation with symbolic input samples and symbolic time (symx + z3)", "7/C08")
